@@ -284,6 +284,13 @@ func genM1(r *rand.Rand, p Profile, id string) Case {
 	iv := int64(-1)
 	if len(p.Initials) > 0 {
 		iv = p.Initials[r.Intn(len(p.Initials))]
+		if r.Intn(6) == 0 {
+			// versions that cross an encoding boundary within a few commits: one/two byte zigzag
+			// varints (hash preimages, proof prefixes) at 63|64 and 8191|8192, uvarints at 127|128
+			// and 16383|16384, 32-bit limits
+			iv = []int64{62, 63, 64, 126, 127, 128, 8190, 8191, 8192, 16382, 16383, 16384,
+				1<<31 - 2, 1<<31 - 1, 1 << 31, 1<<32 - 2, 1<<32 - 1, 1 << 32}[r.Intn(18)]
+		}
 	}
 	c := Case{ID: id, Kind: "m1"}
 	if iv >= 0 {
